@@ -211,6 +211,9 @@ Definition SimR (f : nat) : Prop := forall E x cur stp step b sc mv b' sc' mv' o
   lower_block ([(x, TyInt)] :: sc) mv b = LOk (b', sc', mv') -> dom_ok sc E ->
   reach_r E x cur stp step (tree_of_block b') (o, E', g) /\ ext E E' /\ dom_ok sc E'.
 
+Lemma range_done_refl z s : range_done z z s = true.
+Proof. unfold range_done. destruct (0 <? s); apply Z.leb_refl. Qed.
+
 Lemma okg_go : okg Go. Proof. repeat split; discriminate. Qed.
 Lemma okg_brk : okg Brk. Proof. repeat split; discriminate. Qed.
 
@@ -563,8 +566,12 @@ Proof.
            destruct (IHR _ _ _ _ _ _ _ _ _ _ _ _ _ _ H2 Hk Hl Hdom) as ([F2 HF2] & Hext2 & Hdom2).
            split; [|split; [eapply ext_trans; eauto | exact Hdom2]].
            exists (S (Nat.max F F2)). intros F' HF'. fuelS F'. cbn [rexec_range]. rewrite Hdone.
-           rewrite HF by lia. rewrite wrap64_id by (now apply in_i64b_spec). rewrite HF2 by lia. reflexivity.
-        -- injection Hx as <- <- <-. destruct Hk as (_ & H & _). congruence.
+           rewrite HF by lia. cbv zeta. rewrite Hin. rewrite HF2 by lia. reflexivity.
+        -- injection Hx as <- <- <-.
+           split; [|split; [exact Hext | exact Hdom]].
+           exists (S (S F)). intros F' HF'. fuelS F'. cbn [rexec_range]. rewrite Hdone.
+           rewrite HF by lia. cbv zeta. rewrite Hin. fuelS F'. cbn [rexec_range]. rewrite range_done_refl.
+           now rewrite app_nil_r.
       * injection Hx as <- <- <-.
         split; [|split; [exact Hext | exact Hdom]].
         exists (S F). intros F' HF'. fuelS F'. cbn [rexec_range]. rewrite Hdone. rewrite HF by lia. reflexivity.
@@ -573,8 +580,12 @@ Proof.
            destruct (IHR _ _ _ _ _ _ _ _ _ _ _ _ _ _ H2 Hk Hl Hdom) as ([F2 HF2] & Hext2 & Hdom2).
            split; [|split; [eapply ext_trans; eauto | exact Hdom2]].
            exists (S (Nat.max F F2)). intros F' HF'. fuelS F'. cbn [rexec_range]. rewrite Hdone.
-           rewrite HF by lia. rewrite wrap64_id by (now apply in_i64b_spec). rewrite HF2 by lia. reflexivity.
-        -- injection Hx as <- <- <-. destruct Hk as (_ & H & _). congruence.
+           rewrite HF by lia. cbv zeta. rewrite Hin. rewrite HF2 by lia. reflexivity.
+        -- injection Hx as <- <- <-.
+           split; [|split; [exact Hext | exact Hdom]].
+           exists (S (S F)). intros F' HF'. fuelS F'. cbn [rexec_range]. rewrite Hdone.
+           rewrite HF by lia. cbv zeta. rewrite Hin. fuelS F'. cbn [rexec_range]. rewrite range_done_refl.
+           now rewrite app_nil_r.
       * injection Hx as <- <- <-.
         split; [|split; [exact Hext | exact Hdom]].
         exists (S F). intros F' HF'. fuelS F'. cbn [rexec_range]. rewrite Hdone. rewrite HF by lia. reflexivity.
